@@ -294,6 +294,27 @@ func sameCards(a, b []string) bool {
 	return true
 }
 
+// bestSpec: the best admissible selection of a player by the rules of poker; ok=false when there is
+// none or when the short deck's A-9-8-7-6 makes the rules themselves ambiguous.
+func bestSpec(table string, required int, hole, board []string) (specKey, bool) {
+	sels := admissible(hole, board, required)
+	if len(sels) == 0 {
+		return specKey{}, false
+	}
+	tbl := tableByName(table)
+	var best specKey
+	for i, s := range sels {
+		if table == "short" && isShortAce9876(s) {
+			return specKey{}, false
+		}
+		k := specOf(s)
+		if i == 0 || specCompare(tbl, best, k) < 0 {
+			best = k
+		}
+	}
+	return best, true
+}
+
 // checkBest is the C10 monitor: the reported combination of one player against the rules.
 func checkBest(o *Out, table string, required int, hole, board []string, ci *pokerface.CombinationInfo) {
 	if len(board) < 3 || ci == nil {
